@@ -3,9 +3,10 @@
 (* Trace validation of whole-tool runs of e2fsck (C01, C02).  One ndjson   *)
 (* line per universe element (base image + corruption recipe):             *)
 (*                                                                         *)
-(*  {"e":"FsckN","id":k,"exit":x,"has_st":0|1,"st":{Ext4Abs state}}        *)
+(*  {"e":"FsckN","id":k,"exit":x,"p0":[codes],"has_st":0|1,"st":{state}}   *)
 (*        e2fsck -fn on the corrupted image; st = projection of that image *)
-(*        by the independent reader (always present when exit = 0)         *)
+(*        by the independent reader (always present when exit = 0);        *)
+(*        p0 = superblock-stage problem codes of the run's problem log     *)
 (*  {"e":"FsckYN","id":k,"exit1":x,"nfixed":n,"exit2":y,"problems2":[..]}  *)
 (*        e2fsck -fy on the corrupted image, then e2fsck -fn on the result *)
 (*                                                                         *)
